@@ -17,9 +17,11 @@
 package messageview
 
 import (
+	"bufio"
 	"bytes"
 	"compress/flate"
 	"compress/gzip"
+	"compress/zlib"
 	"fmt"
 	"io"
 	"io/ioutil"
@@ -286,7 +288,17 @@ func (mv *MessageView) BodyReader(opts ...Option) (io.ReadCloser, error) {
 		}
 		return gr, nil
 	case "deflate":
-		return flate.NewReader(r), nil
+		// The "deflate" coding is the zlib format (RFC 7230, section 4.2.2); some
+		// senders emit a bare deflate stream instead. Accept both.
+		br := bufio.NewReader(r)
+		if h, err := br.Peek(2); err == nil && h[0]&0x0f == 8 && (uint16(h[0])<<8|uint16(h[1]))%31 == 0 {
+			zr, err := zlib.NewReader(br)
+			if err != nil {
+				return nil, err
+			}
+			return zr, nil
+		}
+		return flate.NewReader(br), nil
 	default:
 		return ioutil.NopCloser(r), nil
 	}
